@@ -9,7 +9,9 @@ R1  dispatch exhaustiveness (T-AGREE, finite): every dispatch over a method
     falls to a default arm that raises NotImplementedError/ValueError whose
     message interpolates the method value.
 R2  guarded key reads (T-GUARD): a subscript read m[Species.K] / m[k] of a
-    species map whose keys depend on configuration finds its key.  Decided from
+    species map whose keys depend on configuration finds its key; an in-place
+    update `m[K] op= v` (also spelt `m[K] = m[K] op v`) reads m[K] before it
+    stores and is decided like a read.  Decided from
     where the key got in, not from how the guard is spelt: a membership fact on
     the path (`K in m`, `K in m.keys()`, `if K not in m: return / continue /
     raise`, conditional expression, short-circuit operand, match arm) or an
@@ -19,13 +21,27 @@ R2  guarded key reads (T-GUARD): a subscript read m[Species.K] / m[k] of a
     anything that may take the key out again - to the read passes a store of
     the key (`m[K] = …` in every branch, a display the map is built from,
     setdefault / update with the key, a completed loop over a constant
-    collection containing K that stores an element per member); a key variable
+    collection containing K - or over the Species enum itself - that stores
+    an element per member on every path through its body, a mapping made
+    from every member: `{k: … for k in Species}`, dict.fromkeys(Species, …));
+    or an earlier `if` that stores the key under tests on the configuration
+    which the configuration facts at the read imply (compared as predicates
+    over the option fields, nothing taking the key out in between);
+    a key variable that may be any species when the map holds every member
+    of the enum; a key variable
     that walks the map's own keys, a constant collection (decided member by
     member) or a collection for whose every element an earlier loop / dict
     comprehension stored into m (nothing added to that collection since); a
     map handed back by a resolved helper (itself, a component of the tuple /
-    record it returns) whose every return builds it with the key; and a read
-    inside a helper from a map (and key) it is given is decided at every call
+    record it returns) whose every return builds it with the key (a helper
+    whose loop over the members can skip the store, or that returns early,
+    does not - the totals then have the key only under the configurations
+    that take the storing path, and a read that no fact on its path protects
+    is reported with the helper's loop / return named); the field of a record
+    built in the function from a local map (`rec = R(field=m)` … `rec.field[K]`)
+    is that local, and the local handed to the record is decided like the
+    field; and a read inside a helper from a map (and key) it is given - the
+    parameter or a field of a record parameter - is decided at every call
     site of the helper with the arguments bound (so the guard may sit in the
     helper - early return, conditional expression - or around each call).
 R3  switched-off species stay out: every store m[Species.K] = … into an index
@@ -1509,6 +1525,22 @@ class _KeyReads:
                     return f'guarded by `{norm(t)}`'
         return None
 
+    def _display_has(self, fi, e, key):
+        """expression e contains a mapping display that has `key`: a dict display with the key, or - for a member of
+        the Species enum - a mapping made from every member (`{k: … for k in Species}`, dict.fromkeys(Species, …))"""
+        ktxt = norm(key)
+        for d in ast.walk(e):
+            if isinstance(d, ast.Dict) and any(k is not None and norm(k) == ktxt for k in d.keys):
+                return True
+            if _species_const(key) and isinstance(d, ast.DictComp) and len(d.generators) == 1 and not d.generators[0].ifs \
+                    and isinstance(d.generators[0].target, ast.Name) and norm(d.key) == d.generators[0].target.id \
+                    and key.attr in (_species_members(self.prog, fi, d.generators[0].iter) or ()):
+                return True
+            if _species_const(key) and isinstance(d, ast.Call) and call_name(d) == 'dict.fromkeys' and d.args \
+                    and key.attr in (_species_members(self.prog, fi, d.args[0]) or ()):
+                return True
+        return False
+
     # ---- a map built in the function: stores on every path (CFG)
     def _key_stores(self, fi, m, key, depth=0):
         """(nodes after which m certainly holds `key`, nodes after which it may no longer)"""
@@ -1520,7 +1552,7 @@ class _KeyReads:
             knames = set()
 
         def display_has(e):
-            return any(isinstance(d, ast.Dict) and any(k is not None and norm(k) == ktxt for k in d.keys) for d in ast.walk(e))
+            return self._display_has(fi, e, key)
 
         for t, st, how in stores_to(fn):
             if isinstance(t, ast.Subscript) and isinstance(t.value, ast.Name) and t.value.id == m:
@@ -1561,13 +1593,14 @@ class _KeyReads:
                     if isinstance(a_, ast.Name) and a_.id == m and self.stores_before_return(callee, pname, key, depth + 1):
                         stores |= set(self.flow.nodes(fi, stmt_of(c)))
         # a completed loop that stores an element for every member of a constant collection containing the key (a
-        # display of members, rows of (member, value), a dict display - in place, a local or a module constant)
+        # display of members, rows of (member, value), a dict display - in place, a local or a module constant - or
+        # the Species enum itself)
         if g is not None and _species_const(key):
             for t, st, how in stores_to(fn):
                 if not (isinstance(t, ast.Subscript) and isinstance(t.value, ast.Name) and t.value.id == m
                         and isinstance(t.slice, ast.Name) and how in ('assign', 'ann')):
                     continue
-                lit = _literal_species_keys(self.prog, fi, st, t.slice.id, with_owner=True)
+                lit = _literal_species_keys(self.prog, fi, st, t.slice.id, with_owner=True, enum=True)
                 if lit is None or key.attr not in lit[1] or not isinstance(lit[0], ast.For) or lit[0].orelse:
                     continue
                 if self._stores_every(fi, lit[0], m, t.slice.id):
@@ -1640,6 +1673,61 @@ class _KeyReads:
                     return None
         lines = sorted({g.nodes[n].line for n in stores if g.nodes[n].line})
         return f'every path to the read stores the key first (line{"s" if len(lines) > 1 else ""} {", ".join(map(str, lines[:4]))})'
+
+    # ---- a store under configuration facts that the facts at the read imply
+    def stored_under_implied_facts(self, fi, m, key, at, atoms):
+        """An earlier statement of a block around the read is an `if` (chain) that stores `m[key] = …` under tests on
+        the configuration only, and the configuration facts at the read imply those tests (decided over the option
+        fields, so the two guards may be spelt differently): whenever the read is reached the store has happened.
+        Nothing may take the key out again in between."""
+        g = self.flow.cfg(fi)
+        if g is None or not isinstance(self.table, _EnabledTable):
+            return None
+        ktxt = norm(key)
+        _stores, kills = self._key_stores(fi, m, key)
+        kill_lines = {g.nodes[n].line for n in kills if g.nodes[n].line}
+        p_read = self.table.premises(fi, atoms)
+        child = at
+        for a in ancestors(at):
+            for f in ('body', 'orelse', 'finalbody'):
+                bl = getattr(a, f, None)
+                if not (isinstance(bl, list) and any(child is s_ for s_ in bl)):
+                    continue
+                for s0 in bl:
+                    if s0 is child:
+                        break
+                    if not isinstance(s0, ast.If):
+                        continue
+                    for t, st, how in stores_to(s0):
+                        if not (isinstance(t, ast.Subscript) and isinstance(t.value, ast.Name) and t.value.id == m
+                                and norm(t.slice) == ktxt and how in ('assign', 'ann')):
+                            continue
+                        up, only_ifs = getattr(st, '_parent', None), True
+                        while up is not None and up is not s0:
+                            only_ifs = only_ifs and isinstance(up, ast.If)
+                            up = getattr(up, '_parent', None)
+                        if not only_ifs or up is not s0:
+                            continue
+                        if any(st.lineno < ln <= getattr(at, 'lineno', 0) for ln in kill_lines):
+                            continue
+                        extra = [x for x in facts_at(fi.node, st) if not any(x[0] is y[0] and x[1] == y[1] for y in atoms)]
+                        p_store = self.table.premises(fi, extra)
+                        if len(p_store) != len(extra) or not p_store:
+                            continue
+                        fields = set().union(*[p_[2] for p_ in p_read + p_store])
+                        try:
+                            ok = all(all(bool(self.table.tab.ev(e, dict(env), {})) == pol for e, pol, _f, _t in p_store)
+                                     for env in self.table.tab.assignments(fields)
+                                     if all(bool(self.table.tab.ev(e, dict(env), {})) == pol for e, pol, _f, _t in p_read))
+                        except _Cannot:
+                            ok = False
+                        if ok:
+                            return (f'stored at line {st.lineno} under {" and ".join(p_[3] for p_ in p_store)[:80]}, which the facts at '
+                                    f'the read imply')
+            if a is fi.node:
+                break
+            child = a
+        return None
 
     # ---- every element of a collection was stored by an earlier loop
     def stored_for_all_of(self, fi, m, it, at):
@@ -1717,7 +1805,8 @@ class _KeyReads:
         r = self.member_fact(atoms, ktxt, btxt)
         if r:
             return r
-        if K and isinstance(base, ast.Attribute):
+        if K and (isinstance(base, ast.Attribute) or self._record_field_of(fi, base) is not None):
+            # `rec.field[K]`, or the local `m[K]` that a record of this function is built from (`rec = R(field=m)`)
             g = species_enabled_by(atoms, K, self.table, fi=fi)
             if g:
                 return f'configuration guard `{g}` (totals contain every species)'
@@ -1746,6 +1835,15 @@ class _KeyReads:
             r = self.stored_on_every_path(fi, base.id, key, at)
             if r:
                 return r
+            r = self.stored_under_implied_facts(fi, base.id, key, at, atoms) if K else None
+            if r:
+                return r
+        # the field of a record built in this function from a local map (`rec = R(field=m)` … `rec.field[K]`): the
+        # read is one of that local
+        src = self._field_source(fi, base)
+        if src is not None:
+            r = self.safe(fi, src, key, at, depth)
+            return f'`{btxt}` is the local `{src.id}` the record was built from: {r}' if r else None
         # a map handed back by a helper that builds it with the key on every return: the helper's result itself, a
         # component of the tuple / record it returns (unpacked, or read as a field)
         d, sel = None, None
@@ -1763,23 +1861,124 @@ class _KeyReads:
                 rets = [r_.value for r_ in walk_no_nested(callee.node) if isinstance(r_, ast.Return) and r_.value is not None]
                 if rets and all(self._returns_with_key(callee, rv, sel, key, depth) for rv in rets):
                     return f'every return of {callee.name} builds the map with this key'
-        if isinstance(base, ast.Name) and base.id in fi.params and depth < 3 and (K or (isinstance(key, ast.Name) and key.id in fi.params)):
+                if rets and self.why_not is None:
+                    self.why_not = (f'`{btxt}` is the map {callee.name} hands back, and {self._lacking(callee, rets, sel, key, depth)}; '
+                                    f'at this place {_config_facts(atoms)} that {ktxt} is in it')
+        if isinstance(key, ast.Name) and not (isinstance(base, ast.Name) and base.id in fi.params) and depth < 3:
+            # a map that holds every member of the Species enum (built from `for k in Species`, `{k: … for k in
+            # Species}`, … - here or in the helper that hands it back) has whatever species the variable holds
+            mem = _species_members(prog, fi, ast.Name(id='Species', ctx=ast.Load()))
+            if mem:
+                keep = self.why_not
+                rs = (self.safe(fi, base, ast.Attribute(value=ast.Name(id='Species', ctx=ast.Load()), attr=k_, ctx=ast.Load()), at, depth + 1)
+                      for k_ in mem)
+                first = next(rs)
+                if first and all(rs):
+                    return f'the map holds every member of Species: {first}'
+                self.why_not = keep
+        # a map the function is given - the parameter itself, or a field of a record it is given (`rec.field[K]`)
+        root, chain = base, []
+        while isinstance(root, ast.Attribute):
+            chain.append(root.attr)
+            root = root.value
+        if isinstance(root, ast.Name) and root.id in fi.params and depth < 3 and (K or (isinstance(key, ast.Name) and key.id in fi.params)):
             sites = callers_of(prog, fi)
             reasons = []
             for caller, call in sites:
-                b = _bound_arg(fi, call, base.id)
+                b = _bound_arg(fi, call, root.id)
+                if isinstance(b, (ast.Name, ast.Attribute)):
+                    for f_ in reversed(chain):
+                        b = ast.Attribute(value=b, attr=f_, ctx=ast.Load())
                 k = key if K else _bound_arg(fi, call, key.id)
                 if b is None or k is None or not isinstance(b, (ast.Name, ast.Attribute)) or not (_species_const(k) or isinstance(k, ast.Name)):
                     return None
+                outer, self.why_not = self.why_not, None
                 r = self.safe(caller, b, k, call, depth + 1)
                 if not r:
-                    self.why_not = (f'{fi.name} reads it from the map it is given; at the call in {caller.name} (line {call.lineno}) '
-                                    f'`{norm(b)}` is not known to contain {norm(k)}')
+                    inner = self.why_not
+                    self.why_not = outer or (
+                        f'{fi.name} reads it from the map it is given; at the call in {caller.name} (line {call.lineno}) '
+                        f'`{norm(b)}` is not known to contain {norm(k)}' + (f' ({inner})' if inner else ''))
                     return None
+                self.why_not = outer
                 reasons.append(f'{caller.name}:{call.lineno} {r}')
             if reasons:
                 return f'decided at the {len(reasons)} call site(s) of {fi.name}: ' + '; '.join(reasons)[:160]
         return None
+
+    def _record_args(self, fi, call):
+        """field name -> argument expression of a call that builds a record class of the repository (a dataclass /
+        NamedTuple without a constructor of its own: each field is the argument it is given); None for anything else"""
+        from ..resolve import resolve_class_call
+        rc = resolve_class_call(self.prog, fi, call) if isinstance(call, ast.Call) else None
+        if rc is None or any(c_.methods.get(n) is not None for c_ in rc.mro() for n in ('__init__', '__new__', '__post_init__')) \
+                or any(isinstance(a_, ast.Starred) for a_ in call.args) or any(k.arg is None for k in call.keywords):
+            return None
+        order = [n for n, ann in rc.all_fields().items() if 'ClassVar' not in norm(ann)]
+        out = dict(zip(order, call.args))
+        out.update({k.arg: k.value for k in call.keywords})
+        return out
+
+    def _field_source(self, fi, base):
+        """the local map `m` when base is `rec.field`, rec is bound once - to a record built with `field=m` - and
+        neither that field nor m is bound again in the function"""
+        if not (isinstance(base, ast.Attribute) and isinstance(base.value, ast.Name) and base.value.id not in fi.params):
+            return None
+        args = self._record_args(fi, single_def_value(fi.node, base.value.id))
+        a = args.get(base.attr) if args else None
+        if not isinstance(a, ast.Name) or a.id in fi.params:
+            return None
+        for t, _st, _how in stores_to(fi.node):
+            if isinstance(t, ast.Attribute) and t.attr == base.attr and norm(t.value) == base.value.id:
+                return None
+        return a if len([1 for t, _st, _how in stores_to(fi.node) if isinstance(t, ast.Name) and t.id == a.id]) == 1 else None
+
+    def _record_field_of(self, fi, base):
+        """the (record class call, field) a local map is handed to in this function - for a map that is finished when
+        the function gets it (bound once, to the result of a resolved helper function, and never stored into under a
+        new key here): then `m[K]` is the same read as `rec.field[K]`.  None for anything else - in particular for a
+        map the function is still filling, whose keys are decided from its stores."""
+        if not isinstance(base, ast.Name) or base.id in fi.params:
+            return None
+        d = single_def_value(fi.node, base.id)
+        callee = resolve_call(self.prog, fi, d) if isinstance(d, ast.Call) else None
+        if callee is None or callee.cls is not None:
+            return None
+        if any(isinstance(t, ast.Subscript) and isinstance(t.value, ast.Name) and t.value.id == base.id and how != 'aug'
+               for t, _st, how in stores_to(fi.node)):
+            return None
+        for c in calls_in(fi.node):
+            if not any(isinstance(a_, ast.Name) and a_.id == base.id for a_ in [*c.args, *[k.value for k in c.keywords]]):
+                continue
+            args = self._record_args(fi, c)
+            for f, a_ in (args or {}).items():
+                if isinstance(a_, ast.Name) and a_.id == base.id:
+                    return c, f
+        return None
+
+    def _lacking(self, callee, rets, sel, key, depth):
+        """says where the helper leaves the key out: a loop over the members that can skip the store, a return that
+        hands the map back before it was stored"""
+        ktxt = norm(key)
+        for rv in rets:
+            if self._returns_with_key(callee, rv, sel, key, depth):
+                continue
+            name = rv.id if isinstance(rv, ast.Name) else None
+            if name and _species_const(key):
+                for t, st, how in stores_to(callee.node):
+                    if isinstance(t, ast.Subscript) and isinstance(t.value, ast.Name) and t.value.id == name \
+                            and isinstance(t.slice, ast.Name) and how in ('assign', 'ann'):
+                        lit = _literal_species_keys(self.prog, callee, st, t.slice.id, with_owner=True, enum=True)
+                        if lit is not None and key.attr in lit[1] and isinstance(lit[0], ast.For) \
+                                and not self._stores_every(callee, lit[0], name, t.slice.id):
+                            return (f'its loop at line {lit[0].lineno} does not store `{norm(t)}` for every member it walks (a path '
+                                    f'through the body reaches the next member without the store at line {st.lineno}), so '
+                                    f'{ktxt} is in the map only when that path is not taken')
+            if name is None:
+                return (f'the map it returns at line {rv.lineno} (`{norm(rv)[:40]}`) is not built from something that has {ktxt} '
+                        'whatever the configuration')
+            return f'its `return {name}` at line {rv.lineno} can be reached without {ktxt} having been stored into the map'
+        return f'not every return builds it with {ktxt}'
 
     def _returns_with_key(self, callee, rv, sel, key, depth):
         """the returned expression - its component `sel` (position of an unpacked target, or field name) when given -
@@ -1803,8 +2002,7 @@ class _KeyReads:
                     return False
             else:
                 return False
-        ktxt = norm(key)
-        if any(isinstance(d, ast.Dict) and any(k is not None and norm(k) == ktxt for k in d.keys) for d in ast.walk(rv)):
+        if self._display_has(callee, rv, key):
             return True
         if isinstance(rv, ast.Name) and rv.id not in callee.params:
             at = next((r_ for r_ in walk_no_nested(callee.node) if isinstance(r_, ast.Return) and any(x is rv for x in ast.walk(r_))), None)
@@ -1820,7 +2018,13 @@ def rule_reads(ctx, table):
         m = prog.module(rel)
         for fi in m.functions.values():
             for x in walk_no_nested(fi.node):
-                if not (isinstance(x, ast.Subscript) and isinstance(x.ctx, ast.Load)):
+                if not isinstance(x, ast.Subscript):
+                    continue
+                # an in-place update `m[k] op= v` (and `m[k] = m[k] op v`, which the loader spells that way) reads
+                # m[k] before it stores: the key must be there just as for a plain read
+                par = getattr(x, '_parent', None)
+                inplace = isinstance(par, ast.AugAssign) and par.target is x
+                if not (isinstance(x.ctx, ast.Load) or inplace):
                     continue
                 key = x.slice
                 if not (_species_const(key) or isinstance(key, ast.Name)):
@@ -1849,7 +2053,8 @@ def rule_reads(ctx, table):
                     else:
                         bad = (f'`{btxt}` only contains {ktxt} under some configurations (e.g. with the species switched '
                                f'off); this read is unguarded and raises KeyError for the others')
-                ctx.ob('C11-R2', fi, f'read {btxt}[{ktxt}]', why is not None, why if why else bad, line=x.lineno)
+                ctx.ob('C11-R2', fi, f'{"in-place update of" if inplace else "read"} {btxt}[{ktxt}]', why is not None,
+                       why if why else bad, line=x.lineno)
     ctx.floor('C11-R2', n, 20, 'species-map key reads')
 
 
@@ -1922,10 +2127,27 @@ def _only_enabled_keys(prog, fi, it: ast.AST, groups) -> str | None:
     return f'the key walks the result of {callee.name}, which inserts each of its {n} species only when it is enabled'
 
 
-def _literal_species_keys(prog, fi, st, keyvar, with_owner=False):
+def _species_members(prog, fi, e):
+    """every member of the Species enum when expression e is the enum class itself (possibly through list() /
+    tuple() / sorted() / iter() / reversed()): iterating it yields each member once.  None otherwise."""
+    while isinstance(e, ast.Call) and isinstance(e.func, ast.Name) and e.func.id in ('list', 'tuple', 'sorted', 'iter', 'reversed') \
+            and len(e.args) == 1 and not e.keywords:
+        e = e.args[0]
+    if not (isinstance(e, ast.Name) and e.id == 'Species') or e.id in fi.params \
+            or any(isinstance(t, ast.Name) and t.id == e.id for t, _s, _h in stores_to(fi.node)):
+        return None
+    ci = prog.resolve_name(fi.module, e.id)
+    if not isinstance(ci, ClassInfo) or not any('Enum' in b for k_ in ci.mro() for b in k_.base_exprs):
+        return None
+    mem = [k for k, v in ci.class_assignments().items() if v is not None and not k.startswith('_')]
+    return mem or None
+
+
+def _literal_species_keys(prog, fi, st, keyvar, with_owner=False, enum=False):
     """the Species members the key variable of statement st walks, when its loop is over a constant collection: a
     tuple / list / set of `Species.K`, a sequence of (Species.K, value) pairs, or a dict display keyed by Species.K
-    (`.items()` / keys) - written in place, a single-definition local or a module constant.  None otherwise."""
+    (`.items()` / keys) - written in place, a single-definition local or a module constant; with enum=True also the
+    Species enum itself (`for k in Species`: every member).  None otherwise."""
     def literal(e):
         if isinstance(e, ast.Name):
             v = single_def_value(fi.node, e.id)
@@ -1943,6 +2165,10 @@ def _literal_species_keys(prog, fi, st, keyvar, with_owner=False):
         if not (isinstance(first, ast.Name) and first.id == keyvar):
             continue
         paired = first is not tgt
+        if enum and not paired:
+            mem = _species_members(prog, fi, it)
+            if mem is not None:
+                return (owner, mem) if with_owner else mem
         im = iterated_mapping(it)
         src = literal(im[0]) if im is not None and (im[1] == 'items') == paired and im[1] != 'values' else literal(it)
         if isinstance(src, ast.Dict) and (im is not None):
